@@ -172,22 +172,22 @@ NOT_BUILT_REASON = "check not built yet in this revision"
 
 # Workload extensions made after the second round of independent fault seeding (DESIGN.md §7.5); appended to the level text.
 ADDENDA = {
-    "C01": "Also: the multi-step generation pipeline; the verdict matrices repeated with rail exceptions; a turn rewritten by one rail and rejected by a later one counts for the `no earlier original in a later prompt` clause. The later-prompt clause also covers passthrough conversations (rewritten turns that reached generation). Also configurations that list a rail twice ([a, b, a]); user texts from four families ($, quotes/braces, html); a rail shape whose action returns events of its own next to the rewritten text (open finding rewrite-lost-when-rail-action-returns-events). A generate() that raises on a valid conversation without any injected fault is a violation. Also conversations in which the user repeats the very same text in every turn; rails that say something without stopping (open finding leftover-input-rails-instance...); rail/dialog actions whose signature declares a parameter the runtime injects. Also user texts spelling references to context variables (the LLM must be shown the very characters the rails checked) and a dialog action that receives the text through a `$user_message` parameter. An eighth of the sampled v1 conversations is served statelessly (events cache emptied before every call).",
+    "C01": "Also: the multi-step generation pipeline; the verdict matrices repeated with rail exceptions; a turn rewritten by one rail and rejected by a later one counts for the `no earlier original in a later prompt` clause. The later-prompt clause also covers passthrough conversations (rewritten turns that reached generation). Also configurations that list a rail twice ([a, b, a]); user texts from four families ($, quotes/braces, html); a rail shape whose action returns events of its own next to the rewritten text (open finding rewrite-lost-when-rail-action-returns-events). A generate() that raises on a valid conversation without any injected fault is a violation. Also conversations in which the user repeats the very same text in every turn; rails that say something without stopping (open finding leftover-input-rails-instance...); rail/dialog actions whose signature declares a parameter the runtime injects. Also user texts spelling references to context variables (the LLM must be shown the very characters the rails checked) and a dialog action that receives the text through a `$user_message` parameter. An eighth of the sampled v1 conversations is served statelessly (events cache emptied before every call). Also the `param` family: the library's parameterised rail (content safety check input $model=<name>) configured 2-3 times with different parameter values, all accept/reject matrices over two turns: every configured rail runs with its own parameter.",
     "C02": "Also: the multi-step generation pipeline, where the LLM writes message text inline in a generated flow. Also rails listed twice in the output list; conversations in which the LLM produces the very same text in every turn while the rails' verdicts differ per turn (all verdict matrices, v1 + v2). Also completion-style calls generate(prompt=...), with and without options. Also the library's own `self check output` rail with a scripted checker (message sizes up to overflowing the check prompt), and two responders in different interaction loops (open finding). Also conversations in which the LLM's answer spells a reference to a context variable ($user_message): the reply must be that text, not an evaluation of it.",
-    "C03": "Also in the quick tier: two-fault plans (two failing turns in a row, a random pair); thorough adds three faults; the multi-step pipeline. Also failing actions whose signature declares an injected parameter (llm, config, events, llm_task_manager, state). Also Colang 2 rails whose action answers `is it bad?` (open finding v2-failed-action-reads-as-not-bad). A quarter of the v1 conversations is served statelessly (history rebuilt from the messages; open finding v1-rebuilt-history-resumes-dialog-after-fault).",
+    "C03": "Also in the quick tier: two-fault plans (two failing turns in a row, a random pair); thorough adds three faults; the multi-step pipeline. Also failing actions whose signature declares an injected parameter (llm, config, events, llm_task_manager, state). Also Colang 2 rails whose action answers `is it bad?` (open finding v2-failed-action-reads-as-not-bad). A quarter of the v1 conversations is served statelessly (history rebuilt from the messages; open finding v1-rebuilt-history-resumes-dialog-after-fault). Also conversations whose every call asks for a generation log (generation-options path: the processing log of a turn with a failed action is turned into a generation log).",
     "C04": "Also: pairs on action events (ActionEvent.from_umim_event path) and four instance scenarios that name the instance through a written action_uid= parameter. Also the `alias` family: a variable initialised from the very literal text a match pattern spells, a nested part of it mutated in place, then the event. Also string patterns whose source differs from their value ($word text, doubled braces, interpolation of a flow variable) and payloads routed through internal events (interpreter-held AttributeDict values). Also strings with white-space runs (two blanks, tab, leading/trailing blank) and their collapsed near misses. Also action events in member notation (Start through the action's arguments; Started / Finished / Updated through member arguments); a spec-match that leaves the statement waiting is a verdict even when the scoring function was never asked. Also flow events matched through the flow NAME (`match helper(a=1).Finished()`): only the parameters the pattern spells constrain the match.",
-    "C05": "Also: action type names that contain the words event names are built from (Stop, Change, Start, Finished, Updated). Also flows defined twice (@override replacing a first definition with or without @loop). Also programs driven through RuntimeV2_x.process_events. Also neutral preludes in front of a competitor's match (when/else with all cases failing, one case, a taken case, an or-group, if/while). Also competitors that fork right after their match (`start A or B`) and competitors whose action sits in an or-group scope (co-winners must go on after the shared action finished).",
+    "C05": "Also: action type names that contain the words event names are built from (Stop, Change, Start, Finished, Updated). Also flows defined twice (@override replacing a first definition with or without @loop). Also programs driven through RuntimeV2_x.process_events. Also neutral preludes in front of a competitor's match (when/else with all cases failing, one case, a taken case, an or-group, if/while). Also competitors that fork right after their match (`start A or B`) and competitors whose action sits in an or-group scope (co-winners must go on after the shared action finished). Also a container-valued (dict / list) event parameter of which patterns mention parts: every member left out makes a pattern less specific.",
     "C06": "Also: the driver feeds ...ActionStarted acknowledgements (prompt and late, i.e. after the Stop), scoped-action templates (when/or-when over an action, or-group of a flow and an action), flows ended from the outside (send FinishFlow/StopFlow), action names containing event words. Scenarios and hierarchies are also driven through RuntimeV2_x.process_events (outgoing events fed back); a shared action must not be stopped while a sharer runs. Also requests (activate / start / await) issued by a flow that is ended from outside in the same processing step. Activations are keyed by (flow, arguments); idle periods longer than the clean-up age; parameterised activation templates. Also a flow activated by two activators of which one ends, followed by idle time beyond the clean-up age and further restarts.",
     "C07": "Also: mode `aged` - 6.5 s of virtual idle time before every event, so the clean-up of long-finished instances runs between group members finishing and the group completing. Also member flows that finish while being started (open finding and-group-member-finished-while-being-started). Also the `loop` family: the statement inside `while True`, event sequences with repeats, EVERY completion index compared with the formula evaluated on the events since re-activation (all trees with 2-3 leaves, sampled 3-5 leaves; some through process_events). Also member flows that FAIL while the statement waits (else branch / failure when no and-group can complete any more).",
     "C08": "Also: the `mutate` family - a callee mutates in place (after its first wait) containers born from literals (defaults, literal arguments, local initialisers); the next call with the same call text and the caller must see pristine values. Also nested in-place mutation and calls with named arguments in front of positional ones. Also callees that reassign their own parameters, observed on second and later instances of activated flows. Also the equal-contexts family: flows called with the same parameter name and value, with JSON round trips of the state between events. Also callees that are the @override of a definition with another signature.",
     "C09": "Also: generated flows end other (possibly waiting) flows from the outside with FinishFlow/StopFlow. Also hierarchies driven through process_events, and reference programs: one `match $ref.Finished()/Started()` statement (in a loop and in a helper flow shared by several calls) revisited while $ref holds actions of different types and flows. Also JSON round trips of the state between events (hier / formula / reference programs). The index name is cross-checked against the name of the reference event the matcher builds; the state is also checked after an exception that process_events swallows; faulty reference patterns.",
-    "C10": "Also: fault positions without the `send AtFault()` marker (the faulty statement is reached in the same processing step in which witnesses act) and the error kinds send-undef-var-member, start-action-bad-arg, start-flow-bad-arg, umim-param-wrong-type. Also `apiterm`: event cycles through ordinary outgoing events driven through process_events, with a bound on run_to_completion rounds per API call and a witness. Also `iso-repeat`: an activated victim failing with the same error on every trigger - every failure must be reported. Also faulty compound statements that are the FIRST statement of a callee flow, and error-handler programs (an activated `match ColangError()` flow, with and without a fault of its own - open finding). Also fault kinds that raise plain Python exceptions and long runs (14-40 events) of healthy activated flows that act before their first wait next to an armed faulty flow. Also errors raised while another flow is created / started (too many positional arguments, an error in a parameter default).",
+    "C10": "Also: fault positions without the `send AtFault()` marker (the faulty statement is reached in the same processing step in which witnesses act) and the error kinds send-undef-var-member, start-action-bad-arg, start-flow-bad-arg, umim-param-wrong-type. Also `apiterm`: event cycles through ordinary outgoing events driven through process_events, with a bound on run_to_completion rounds per API call and a witness. Also `iso-repeat`: an activated victim failing with the same error on every trigger - every failure must be reported. Also faulty compound statements that are the FIRST statement of a callee flow, and error-handler programs (an activated `match ColangError()` flow, with and without a fault of its own - open finding). Also fault kinds that raise plain Python exceptions and long runs (14-40 events) of healthy activated flows that act before their first wait next to an armed faulty flow. Also errors raised while another flow is created / started (too many positional arguments, an error in a parameter default). Also the repeated-failure family with the faulty flow activated by two flows, the first of which ends, followed by idle time beyond the clean-up age.",
     "C11": "Also: templates with group members finishing before the aging, or-group of a flow and an action, an action with marker-shaped / set-valued start arguments and a marker-shaped dict variable; flows ended from the outside. Also the runtime-API family: conversations through RuntimeV2_x.process_events with local actions and AddFlowsAction/RemoveFlowsAction, round-tripped (and aged) at every cut. Also flows with equal contexts at the cut, and dict variables copied by name after the cut. Also continuation trees over LLMRails.generate(state=...): every saved state may be continued again, by the same or a fresh instance; list aliases and int-keyed dicts (open findings). Also the library's flow-inspection actions (CheckValidFlowExistsAction / CheckFlowDefinedAction) asked about a flow whose only instance finished long ago, across save/restore and idle time.",
     "C12": "Also: Colang 1.0 loop bodies that end in break/return/continue or an if/else whose else branch does (not always the counter increment). Every accepted Colang 2 program is compiled a SECOND time from the same parsed flows and scanned again. Also Colang 1.0 `priority` / `meta` statements written anywhere, including nested blocks. Element kinds are judged by a whitelist of primitives (placeholders of pass / comments / doc strings accepted); compound assignments `+=`/`-=` with calls on the right-hand side. Rejected programs are initialised again on the same FlowConfig objects: rejected again, or closed.",
     "C14": "Also: the `errretry` family - decisions through RuntimeV1_0._compute_next_steps on ONE runtime object across a call that raises, compared with a fresh runtime given only the repaired history. Also expressions that begin and end with a quote character without being one string literal (ternaries, string comparisons).",
     "C15": "Also: the multi-step generation pipeline with two text-dependent user intents (LLM-generated flows kept by the shared runtime). The embedding model is a gated suspension point of the concurrent workload too (incl. conversations opening with the same text). Also the `genflows` family: per conversation the LLM writes a different KIND of flow (spanning several turns, failing in an expression after it started, endless). Also generated steps that differ per conversation (sampling keyed on the conversation's first request) and the `overflow` family (a prompt with max_length that every conversation outgrows). Also requests abandoned (task cancelled) while an LLM call is in flight, followed by another conversation. Also the v2teach family: two Colang 2 conversations on one LLMRails instance (process_events_async, own state each) in which flows are added / removed at run time (AddFlowsAction / RemoveFlowsAction); each conversation must behave as it does alone on a fresh instance.",
     "C16": "Also: sequences of 2-3 requests in ONE conversation (state object or resent messages) whose options change between requests, each judged by the table; a caller-supplied history that repeats the current user text. Also user / bot texts starting with `$`. Also sequences that pass ONE GenerationOptions object to every call (with an ill-formed request in between that is not judged itself). Also output rails whose refusal is generated by the LLM: the refusal passes the output rails a second time while the blocker's record is open (two records of one rail name), stop must stay on the blocker.",
-    "C17": "Also: generated values shaped like the state serialiser's markers followed by another turn; taint in the bot-intent slot of generated flows; an evaluated marker must not reach a later LLM prompt either; later turns are compared with a control conversation (observation only). Also the literal pass-through clause on carrier sentences and the same hostile completion repeated in a later turn. Also generated number literals that overflow a double, values that try to leave an interpolating string literal, silent loops (`while True / $x = 1`) decided by a spin detector (a whole 10 s window of process CPU time without one entry into a parser/runtime function). Also message text written inline under a bot intent in the multi-step next-steps completion. Also lone surrogates (an emoji cut by a token boundary).",
+    "C17": "Also: generated values shaped like the state serialiser's markers followed by another turn; taint in the bot-intent slot of generated flows; an evaluated marker must not reach a later LLM prompt either; later turns are compared with a control conversation (observation only). Also the literal pass-through clause on carrier sentences and the same hostile completion repeated in a later turn. Also generated number literals that overflow a double, values that try to leave an interpolating string literal, silent loops (`while True / $x = 1`) decided by a spin detector (a whole 10 s window of process CPU time without one entry into a parser/runtime function). Also message text written inline under a bot intent in the multi-step next-steps completion. Also lone surrogates (an emoji cut by a token boundary). Also completions that consist of ESCAPED control characters inside quotes (backslash-n, backslash-t): non-empty as generated, blank once unescaped, followed by another turn.",
     "C13": "Also a jump budget on the loops of the loader itself (rails/llm/config.py) and directed arrangements of import lines. Also a CPU-time budget (ITIMER_VIRTUAL, 40 s of the process's own CPU time inside one load) for non-termination inside a single C-level regex match.",
     "C19": "Also the bulk family: 101-257 texts in one list request / index build / batch, model calls released in random order. Also client cancellations (task.cancel() of a started request at an idle point of the schedule). Also the two-index family: 2-3 indexes with different embedding models and the same cache configuration (same cache directory or not) fed the same texts. The two-index family also has a concurrent phase and model names / texts that a naive key prefix would confuse. Also provider failures: a model call that raises must fail the requests of its batch instead of leaving them waiting.",
     "C18": "Also four configurations with several stop sequences.",
